@@ -35,6 +35,10 @@ var syncReplyTimeout = 10 * time.Second
 // own channel is in the Signing phase, the ongoing update is discarded so that
 // the channel is reverted to the Acting phase.
 func (c *Client) handleSyncMsg(peer map[wallet.BackendID]wire.Address, msg *ChannelSyncMsg) {
+	if msg.CurrentTX.State == nil {
+		c.log.WithField("peer", peer).Error("received sync message without state")
+		return
+	}
 	log := c.logChan(msg.ID()).WithField("peer", peer)
 	ch, ok := c.channels.Channel(msg.ID())
 	if !ok {
@@ -47,6 +51,7 @@ func (c *Client) handleSyncMsg(peer map[wallet.BackendID]wire.Address, msg *Chan
 	// Lock machine while replying to sync request.
 	if !ch.machMtx.TryLockCtx(ctx) {
 		log.Errorf("Could not lock machine mutex in time: %v", ctx.Err())
+		return
 	}
 	defer ch.machMtx.Unlock()
 
